@@ -48,6 +48,7 @@ def run_e2(prog, res, cfg, reachable):
         summaries[k] = list(best.items())
     lstar = INF
     counters = {}
+    site_table = {}
     n_sites = {"index": 0, "lib": 0, "ptr": 0, "summary": 0}
     unreachable_sites = 0
     for f in prog.all_functions():
@@ -86,12 +87,31 @@ def run_e2(prog, res, cfg, reachable):
                     lstar = min(lstar, s["lstar"])
             elif s["cls"] == "ok" and "path" in s["detail"]:
                 assume = None
-            res.add("E2.bounded_write", key, f.where(s["node"]), s["ok"],
-                    ("%s into %s[%s]: %s" % (s["what"], s["buf"], s["cap"], s["detail"]))[:400], {"class": s["cls"]}, assume=assume)
+            ok = s["ok"]
+            msg = ("%s into %s[%s]: %s" % (s["what"], s["buf"], s["cap"], s["detail"]))[:400]
+            ref = cfg.get("e2_reference")
+            if ok:
+                site_table[key] = {"cls": s["cls"], "lstar": (None if s.get("lstar") in (None, INF) else int(s["lstar"]))}
+            if ref is not None and ok:
+                cur = site_table[key]
+                old = ref.get(key)
+                rank = {"ok": 0, "assume": 1}
+                if old is not None:
+                    if rank.get(cur["cls"], 2) > rank.get(old["cls"], 2):
+                        ok = False
+                        msg += " — REGRESSION: this write was bounded outright on the reference tree and now depends on the identifier-length assumption"
+                    elif cur["cls"] == "assume" and old.get("lstar") is not None and cur["lstar"] is not None and cur["lstar"] < old["lstar"]:
+                        ok = False
+                        msg += " — REGRESSION: safe identifier length at this site dropped from %s to %s" % (old["lstar"], cur["lstar"])
+                elif cur["cls"] == "assume" and cur["lstar"] is not None and cur["lstar"] < cfg.get("lstar_floor", 0):
+                    ok = False
+                    msg += " — new site whose safe identifier length %s is below the floor L* = %s" % (cur["lstar"], cfg.get("lstar_floor"))
+            res.add("E2.bounded_write", key, f.where(s["node"]), ok, msg, {"class": s["cls"]}, assume=assume)
     res.info["e2_functions"] = nfun
     res.info["e2_sites"] = n_sites
     res.info["e2_sites_off_the_file_path"] = unreachable_sites
     res.info["e2_identifier_length_safe_up_to"] = None if lstar == INF else lstar
+    res.e2_site_table = site_table
     return lstar, n_sites
 
 
